@@ -845,6 +845,8 @@ CORPUS = [
     {"kind": "pop", "os": 1, "hd": [0.9, 3.1, 3.2], "sub": [], "start": 0, "temp": 10.0},
     # T = 0 with the lowest state not first
     {"kind": "pop", "os": 0, "hd": [0.0, 2.30, 2.26], "sub": None, "start": 1, "temp": 0.0},
+    # T = 0 where the subtracted energies change which state is lowest (2.26 - 0 > 2.30 - 0.10)
+    {"kind": "pop", "os": 0, "hd": [0.0, 2.26, 2.30], "sub": [0.0, 0.10], "start": 1, "temp": 0.0},
 ]
 
 
